@@ -374,6 +374,17 @@ class Inliner(object):
             changed = self._block_owner(fd, table, methods, '{}:{}'.format(mname, qual))
             if not changed:
                 break
+        # a hoisted closure (callback handed to an inlined helper) whose every call was spliced in is no longer part of the function
+        for blk_owner in list(ast.walk(fd)):
+            for fld in ('body', 'orelse', 'finalbody'):
+                blk = getattr(blk_owner, fld, None)
+                if not (isinstance(blk, list) and blk and isinstance(blk[0], ast.stmt)):
+                    continue
+                for st in list(blk):
+                    if isinstance(st, ast.FunctionDef) and st.name.startswith('__fn_') and st.name in table:
+                        used = any(isinstance(x, ast.Name) and x.id == st.name and not any(x is y for y in ast.walk(st)) for x in ast.walk(fd))
+                        if not used and len(blk) > 1:
+                            blk.remove(st)
         for st in fd.body:
             if isinstance(st, ast.FunctionDef) and st.name not in nested:
                 # nested functions of the reference (closures): inline into them too
@@ -457,6 +468,35 @@ class Inliner(object):
                         x.src_file = getattr(st, 'src_file', None)
                 self.log.append('{}: call of new helper {}() in the loop header at line {} inlined (statement level)'.format(where, fd.name, getattr(st, 'lineno', '?')))
                 return pre + [st]
+            if new is None and isinstance(st, ast.If):
+                # if <test that always evaluates helper(..) first>:  ->  tmp = <helper body>; if <test with tmp>:
+                calls_ = self._calls_in(hdr, table, methods)
+                if len(calls_) == 1 and _evaluated_unconditionally(hdr, calls_[0]):
+                    call_ = calls_[0]
+                    fd, is_m = self._resolve(call_, table, methods)
+                    if not (_returns_in_loops_or_try(fd) or _has(fd, (ast.Yield, ast.YieldFrom))):
+                        self.counter += 1
+                        keep = _locals_of(fd) - self.caller_names
+                        env = _param_env(fd, call_, is_m, self.counter, keep)
+                        if env is not None:
+                            pre_stmts = env.pop('__pre__')
+                            body = pre_stmts + _flat([_subst(s_, env) for s_ in fd.body if not (isinstance(s_, ast.Expr) and isinstance(s_.value, ast.Constant))])
+                            tmp = '__inl{}'.format(self.counter)
+                            pre = _as_statements(body, ast.Name(id=tmp, ctx=ast.Store()), False)
+
+                            class Rp(ast.NodeTransformer):
+                                def visit_Call(self, node):
+                                    if node is call_:
+                                        return ast.Name(id=tmp, ctx=ast.Load())
+                                    return self.generic_visit(node)
+                            st.test = Rp().visit(st.test)
+                            for s_ in pre + [st.test]:
+                                for x in ast.walk(s_):
+                                    if not hasattr(x, 'lineno'):
+                                        x.lineno, x.col_offset, x.end_lineno, x.end_col_offset = getattr(st, 'lineno', 0), 0, getattr(st, 'lineno', 0), 0
+                                    x.src_file = getattr(st, 'src_file', None)
+                            self.log.append('{}: call of new helper {}() in the condition at line {} inlined (statement level)'.format(where, fd.name, getattr(st, 'lineno', '?')))
+                            return pre + [st]
             if new is None:
                 return None
             if isinstance(st, ast.For):
@@ -717,6 +757,22 @@ def flatten_new_bases(port, ref):
             if copied:
                 log.append('{}:{} inherits from new base class(es) {}: {} copied into the analysed class'.format(mname, cname, ', '.join(b.name for b in bases), ', '.join(copied)))
     return log
+
+
+def _evaluated_unconditionally(root, target):
+    """is `target` (a sub-expression of root) evaluated whenever root is, before anything that could be skipped?"""
+    if root is target:
+        return True
+    if isinstance(root, ast.BoolOp):
+        return _evaluated_unconditionally(root.values[0], target)
+    if isinstance(root, ast.IfExp):
+        return _evaluated_unconditionally(root.test, target)
+    if isinstance(root, (ast.Lambda, ast.ListComp, ast.GeneratorExp, ast.DictComp, ast.SetComp)):
+        return False
+    for ch in ast.iter_child_nodes(root):
+        if any(x is target for x in ast.walk(ch)):
+            return _evaluated_unconditionally(ch, target)
+    return False
 
 
 def inline_new_helpers(port):
